@@ -69,7 +69,20 @@ fn key_report(privk: &str, pubk: &str) -> String {
         Ok(c) => format!("ok:{}", hc::crypto_trusted(&c).iter().map(|k| hex(k)).collect::<Vec<_>>().join("+")),
         Err(_) => "err".to_string(),
     };
-    format!("privparse={} pubparse={} pair={} crypto={} both={} bothnopub={} deftrust={}", privparse, pubparse, pair, crypto, both, both2, deftrust)
+    // the own public key listed among the trusted keys next to another key, in both orders: the trusted set is what the list says
+    let other = crate::util::to_base62(&[7u8; 32]);
+    let mut trust2 = vec![];
+    for tk in [vec![pubk.to_string(), other.clone()], vec![other.clone(), pubk.to_string()]] {
+        let cfg5 = crate::crypto::Config { password: None, private_key: Some(privk.to_string()), public_key: None, trusted_keys: tk, algorithms: vec!["plain".to_string()] };
+        trust2.push(match crate::crypto::Crypto::new([0; 16], &cfg5) {
+            Ok(c) => hc::crypto_trusted(&c).iter().map(|k| hex(k)).collect::<Vec<_>>().join("+"),
+            Err(_) => "err".to_string(),
+        });
+    }
+    let trust2 = trust2.join("|");
+    // "a private key always yields its matching public key": the text path the command line uses
+    let derived = match crate::crypto::Crypto::public_key_from_private_key(privk) { Ok(t) => format!("ok:{}", text_or_dash(&t)), Err(_) => "err".to_string() };
+    format!("privparse={} pubparse={} pair={} crypto={} both={} bothnopub={} deftrust={} derived={} trust2={}", privparse, pubparse, pair, crypto, both, both2, deftrust, derived, trust2)
 }
 
 pub fn b62_step(t: &[&str]) -> Option<String> {
